@@ -167,10 +167,24 @@ func runC11(idx int, rng *rand.Rand, tier string) []Case {
 	}
 	var m vegeta.Metrics
 	base := time.Unix(1600000000, 0)
+	// results of every kind carry a latency: answered, refused by the server, and without any
+	// response at all (status 0: timeout, connection refused)
+	codes := []uint16{200, 200, 200, 0, 503, 0, 404, 200}
+	early := idx%2 == 1 // Close once half-way, take the HDR report before the final Close
+	var hdr bytes.Buffer
 	for i, x := range xs {
-		m.Add(&vegeta.Result{Code: 200, Timestamp: base.Add(time.Duration(i) * time.Millisecond), Latency: time.Duration(x)})
+		m.Add(&vegeta.Result{Code: codes[rng.Intn(len(codes))], Timestamp: base.Add(time.Duration(i) * time.Millisecond), Latency: time.Duration(x)})
+		if early && i == len(xs)/2 {
+			m.Close()
+		}
+	}
+	if early {
+		_ = vegeta.NewHDRHistogramPlotReporter(&m).Report(&hdr)
 	}
 	m.Close()
+	if !early {
+		_ = vegeta.NewHDRHistogramPlotReporter(&m).Report(&hdr)
+	}
 	var c Case
 	w := &c.W
 	w.Z(1)
@@ -196,8 +210,7 @@ func runC11(idx int, rng *rand.Rand, tier string) []Case {
 		w.F(q)
 	}
 	// the HDR report rows: Value(ms) Percentile TotalCount 1/(1-Percentile)
-	var buf bytes.Buffer
-	_ = vegeta.NewHDRHistogramPlotReporter(&m).Report(&buf)
+	buf := hdr
 	type row struct{ q, v int64 }
 	var rows []row
 	for i, line := range strings.Split(buf.String(), "\n") {
